@@ -1,0 +1,14 @@
+//go:build verif
+
+package zapfield
+
+// Hook for the verifier (build tag verif only): Str and Strs are generic and have no instantiation in
+// the non-test program; a named string type gives the verification-condition generator one instance
+// of each (the conversions string(k), string(v) are then real conversions, not identities).
+
+type verifStr string
+
+var (
+	_ = Str[verifStr, verifStr]
+	_ = Strs[verifStr, []verifStr, verifStr]
+)
